@@ -201,12 +201,12 @@ func (sc *SpecCtx) load(p *Ptr) Val {
 	for _, c := range e.flatten(p.T) {
 		switch p.Kind {
 		case PObj:
-			nm := heapName(e, p.RootT, p.Path+c.Path)
+			nm, root := sc.st.leafLoc(p.RootT, p.Root, p.Path+c.Path)
 			e.noteRef(nm, c)
 			if sc.bound == 0 && sc.cur == nil {
-				sc.st.instantiateForArray(nm, p.Root)
+				sc.st.instantiateForArray(nm, root)
 			}
-			v.C = append(v.C, sel(sc.arr(nm, arrSort(c.Sort)), p.Root))
+			v.C = append(v.C, sel(sc.arr(nm, arrSort(c.Sort)), root))
 		case PElem:
 			nm := elemsName(e, p.T, c.Path)
 			e.noteRef(nm, c)
@@ -245,6 +245,10 @@ func (sc *SpecCtx) selector(x *SExpr) Val {
 			sc.fail("no field %s in %s", name, t)
 		}
 		np := &Ptr{Kind: PObj, Root: p.Root, RootT: p.RootT, Path: p.Path + "." + f.Name(), T: f.Type()}
+		if e.isEmbeddedObject(f) {
+			sub := &Ptr{Kind: PObj, Root: sc.st.ptrTerm(np), RootT: f.Type(), T: f.Type()}
+			return Val{T: types.NewPointer(f.Type()), C: []string{sub.Root}, P: sub}
+		}
 		if _, isArr := f.Type().Underlying().(*types.Array); isArr {
 			ap := &Ptr{Kind: PArr, Root: sc.st.ptrTerm(np), T: f.Type()}
 			return Val{T: types.NewPointer(f.Type()), C: []string{ap.Root}, P: ap}
